@@ -383,7 +383,7 @@ fn decode(ch: &[u16], a: u16, b: u16) -> NodeCase {
         }
         _ => gen_node(&sig, alphabet, &mut src),
     };
-    let namings = [Naming::Alpha, Naming::Numeric, Naming::FreshLike, Naming::NumericRev, first_occurrence_numeric(&node)];
+    let namings = [Naming::Alpha, Naming::Numeric, Naming::FreshLike, Naming::NumericRev, first_occurrence_numeric(&node), first_occurrence_mixed(&node, false), first_occurrence_mixed(&node, true)];
     let naming = namings[(b as usize * namings.len()) >> 16].clone();
     NodeCase { lang, node, other, ren, naming }
 }
@@ -423,6 +423,37 @@ pub fn first_occurrence_numeric(node: &Tm) -> Naming {
         if e.is_empty() {
             *e = next.to_string();
             next += 1;
+        }
+    }
+    Naming::Table(table)
+}
+
+/// like first_occurrence_numeric, but the last one or two names (in order of first occurrence) are spelled as fresh-kind slots
+/// ($f0, $f1) or as the first names the thread interns ($a, $b): a node whose numeric names look canonical, mixed with slots of
+/// the two other kinds (the three kinds are interleaved in the derived order of `Slot`)
+pub fn first_occurrence_mixed(node: &Tm, named: bool) -> Naming {
+    let Naming::Table(mut table) = first_occurrence_numeric(node) else { unreachable!() };
+    // how many distinct names the node has = the largest number handed out to a name that occurs
+    let mut occurring: Vec<Name> = Vec::new();
+    for a in &node.args {
+        match a {
+            Arg::S(n) => occurring.push(*n),
+            Arg::P(_) => {}
+            Arg::K(bs, k) => {
+                occurring.extend(bs.iter().copied());
+                occurring.extend(k.args.iter().filter_map(|x| if let Arg::S(n) = x { Some(*n) } else { None }));
+            }
+        }
+    }
+    occurring.sort();
+    occurring.dedup();
+    let k = occurring.len();
+    for n in occurring {
+        let num: usize = table[n as usize].parse().unwrap_or(0);
+        // the last name, and for nodes with >= 3 names also the one before it
+        if k >= 1 && (num + 1 == k || (k >= 3 && num + 2 == k)) {
+            let j = k - 1 - num; // 0 for the last, 1 for the one before
+            table[n as usize] = if named { ["a", "b"][j].to_string() } else { format!("f{}", j) };
         }
     }
     Naming::Table(table)
